@@ -3,6 +3,8 @@ package regex
 import (
 	stdErrors "errors"
 	"regexp"
+	"regexp/syntax"
+	"unicode"
 
 	"github.com/lucasjones/reggen"
 
@@ -74,16 +76,75 @@ func (s *Schema) Example() ([]byte, error) {
 	return s.generateExample()
 }
 
-func (s *Schema) generateExample() ([]byte, error) {
+func (s *Schema) generateExample() (b []byte, err error) {
+	// The generator panics on what it cannot handle (a character class without
+	// members): report that as an error.
+	defer func() {
+		if r := recover(); r != nil {
+			e := errors.Format(errors.ErrRegexExample, s.file.Content())
+			docErr := errors.NewDocumentError(s.file, e)
+			docErr.SetIndex(bytes.Index(0))
+			b, err = nil, docErr
+		}
+	}()
+
+	pattern := s.pattern
+	re, err := syntax.Parse(pattern, syntax.Perl)
+	if err != nil {
+		return nil, err
+	}
+	if replaceOpenClasses(re) {
+		pattern = re.String()
+	}
+
 	// A generator advances its random source on every call: build it anew so that
 	// equal calls give equal examples.
-	g, err := reggen.NewGenerator(s.pattern)
+	g, err := reggen.NewGenerator(pattern)
 	if err != nil {
 		return nil, err
 	}
 	g.SetSeed(s.generatorSeed)
 
 	return []byte(g.Generate(1)), nil
+}
+
+// replaceOpenClasses replaces by one of its members every character class that
+// reaches the last code point and has none of the characters the generator picks
+// from in that case (printable ASCII, tab, line feed, carriage return): the
+// generator panics on such a class, e.g. on `[^\x00-\x7F]`.
+// Reports whether the expression was changed.
+func replaceOpenClasses(re *syntax.Regexp) (changed bool) {
+	for _, sub := range re.Sub {
+		if replaceOpenClasses(sub) {
+			changed = true
+		}
+	}
+
+	n := len(re.Rune)
+	if re.Op != syntax.OpCharClass || n == 0 || re.Rune[n-1] != unicode.MaxRune {
+		return changed
+	}
+	for i := 0; i < n; i += 2 {
+		for _, known := range [][2]rune{{' ', '~'}, {'\t', '\n'}, {'\r', '\r'}} {
+			if re.Rune[i] <= known[1] && re.Rune[i+1] >= known[0] {
+				return changed
+			}
+		}
+	}
+	re.Op, re.Rune = syntax.OpLiteral, []rune{classMember(re.Rune)}
+	return true
+}
+
+// classMember returns the first printable member of the class, or else its first member.
+func classMember(class []rune) rune {
+	for i := 0; i < len(class); i += 2 {
+		for r := class[i]; r <= class[i+1]; r++ {
+			if unicode.IsPrint(r) {
+				return r
+			}
+		}
+	}
+	return class[0]
 }
 
 func (*Schema) AddType(string, jschema.Schema) error {
